@@ -932,6 +932,11 @@ class NetworkGraph(AbstractBaseIR):
                     weight_mat = weight_mat.squeeze(axis=1)
                     eq = f"{t_str_final} = {w_str} * {s_str_final}"
                 else:
+                    if len(tidx_unique) == 1:
+                        # Single-target: the indexed target is a scalar element, so the
+                        # product has to be the scalar dot(weight_vec, sources) rather
+                        # than the (1,) vector that a (1, n_sources) matrix yields.
+                        weight_mat = weight_mat.squeeze(axis=0)
                     eq = f"{t_str_final} = matvec({w_str}, {s_str_final})"
                 args[w_str] = {'vtype': 'constant', 'value': weight_mat, 'dtype': 'float', 'shape': weight_mat.shape}
 
